@@ -234,6 +234,12 @@ def check(fx, rep, tier):
             return self.rep.oblige(ok, "R15.3", key, where, msg, sample)
 
     check_absorption(mm, Proxy(rep))
+    # evidence about components must be joined too: an operand answered as it stands needs every component compared equal or
+    # unified on that path (shared with C16 R16.1 diagonal)
+    from .. import core
+    from .c16 import check_diagonal
+
+    check_diagonal(mm, core.Retag(rep, "R15.3"))
     check_contradictions(mm, rep)
     check_conflict_arms(fx, mm, rep)
     rep.exhaustive = True
